@@ -144,6 +144,20 @@ def wl_uniform(ctx, rng):
             ctx.close('lin-equivalence', [q.sample(ui) for ui in u], want, 1e-11, atol=1e-11 * max(scale, 1.0),
                       lin_bounds=(A, B))
         ctx.sig('LogUniform', la, lb)
+    # the bounds of the LIVE object are set again (set_bounds is public; the optimizer does this for default priors)
+    if rng.random() < 0.5:
+        a2, b2 = rnd_bounds(rng)
+        if log:
+            a2, b2 = squash(a2), squash(b2)
+            if a2 == b2:
+                b2 = a2 + 1
+        p.set_bounds(container((a2, b2)))
+        ctx.observe('set_bounds-on-live-object')
+        x2 = np.array([p.sample(ui) for ui in u])
+        ctx.close('uniform-inverse-cdf', x2, uniform_oracle(a2, b2, u), 1e-12, atol=1e-12 * max(abs(a2), abs(b2)),
+                  bounds=(a2, b2), after_set_bounds=True, first=(a, b))
+        ctx.close('boundaries', p.boundaries(), (min(a2, b2), max(a2, b2)), 0.0, after_set_bounds=True)
+        check_monotone(ctx, 'after-set_bounds', u, x2)
 
 
 def norm_cdf(z):
